@@ -53,7 +53,7 @@ def cases(draw):
 
 
 def _case(draw, k, n, nserv, seg, sib, fplan):
-    return {"hsalt": draw(st.integers(0, 15)), "threads": draw(st.sampled_from(["sync", "async"])), "fmt": draw(st.sampled_from(["sdmf", "mdmf"])), "k": k, "n": n, "seg": seg, "size": draw(st.integers(0, 5 * seg)),
+    return {"hsalt": draw(st.integers(0, 15)), "threads": draw(st.sampled_from(["sync", "async", "held"])), "fmt": draw(st.sampled_from(["sdmf", "mdmf"])), "k": k, "n": n, "seg": seg, "size": draw(st.integers(0, 5 * seg)),
             "planA": draw(st.one_of(st.none(), st.just(0).map(lambda _: fplan()))), "planB": fplan(),
             "op": draw(st.sampled_from(["overwrite", "update", "update-append"])), "size2": draw(st.integers(1, 3 * seg)),
             "sched": draw(st.lists(st.integers(0, 9), max_size=draw(st.sampled_from([0, 40, 200])))),
@@ -104,7 +104,7 @@ def install(g, plan):
 
 def run_case(case, ctx):
     from vf import boot as _boot
-    _boot.set_thread_mode(case.get("threads") == "async")      # defer_to_thread answered in a later reactor turn (as in production) or synchronously
+    _boot.set_thread_mode(case.get("threads") or "sync")      # defer_to_thread answered in a later reactor turn (as in production) or synchronously
     from allmydata.mutable.common import NotEnoughServersError, UncoordinatedWriteError
     k, n, seg, fmt = case["k"], case["n"], case["seg"], case["fmt"]
     mutfile.set_segsize(seg)
